@@ -26,6 +26,10 @@ EXTRA = [
     # maps built while rendering, with keys of several kinds, printed whole: the text must not depend on the map instance
     ("mixed-key-map", [["m.html", "{% set m = {true: x, 1: x, 0: xs, false: 2, 'k': x, 3: 3, 'a': 4, 2: 5} %}{{ m }}|{% set n = {...m, 7: x, 'z': 1} %}{{ n }}|{{ [m, n] }}"]],
      {"op": "render", "name": "m.html"}),
+    # the same name in the global context and in the render context (the render context wins, through every channel)
+    ("global-shadowed", [["g.html", "{{ x }}|{{ onlyg }}|{% include 'gi.html' %}{% block b %}[{{ x }}{{ onlyg }}]{% endblock %}"], ["gi.html", "I{{ x }}{{ onlyg }}"]], {"op": "render", "name": "g.html"}),
+    ("global-shadowed-block", [["g.html", "{% block b %}[{{ x }}{{ onlyg }}{% include 'gi.html' %}]{% endblock %}"], ["gi.html", "I{{ x }}{{ onlyg }}"]], {"op": "render_block", "name": "g.html", "block": "b"}),
+    ("global-shadowed-str", [["gi.html", "I{{ x }}{{ onlyg }}"]], {"op": "render_str", "src": "{{ x }}{{ onlyg }}{% include 'gi.html' %}", "auto": True}),
     ("capture", [["p.html", "{% set v %}a{{ x }}b{% endset %}{{ v }}{{ v | safe }}{% for c in x %}{{ c }}{% endfor %}"]], {"op": "render", "name": "p.html"}),
 ]
 ECTX = {"x": "<&é\">", "xs": [1, 2, 3], "title": "T&t"}
@@ -41,7 +45,7 @@ def run(tier):
     for j in corpus.snapshot_jobs(trace=False, include_errors=False):
         items.append((j["src"], j["cfg"], j["ctx"], j["tpls"], {"op": "render", "name": j["entry"]}))
     for name, tpls, op in EXTRA:
-        items.append((name, {"autoescape": [".html"]}, ECTX, tpls, op))
+        items.append((name, {"autoescape": [".html"], "gctx": {"x": "GLOBAL", "onlyg": "og", "xs": ["G"], "title": "GT"}} if name.startswith("global") else {"autoescape": [".html"]}, ECTX, tpls, op))
     jobs = []
     for src, cfg, ctx, tpls, op in items:
         plain = dict(op)
